@@ -125,7 +125,7 @@ def _run_cached(job):
         except Exception:
             pass
     u = _run_one(job)
-    if u.error is None:
+    if u.error is None and not _is_undecided(u):
         try:
             os.makedirs(os.path.dirname(p), exist_ok=True)
             tmp = p + f".{os.getpid()}.tmp"
@@ -137,7 +137,32 @@ def _run_cached(job):
     return u
 
 
+def _is_undecided(u):
+    return bool(u.unsupported) or any(ob.get("status") == "undecided" for ob in u.obligations)
+
+
 def run_units(jobs, nproc=None):
+    """run all jobs; units that came out undecided for want of time (solver timeout, unit budget) are run once more with
+    three times the budgets, so that a loaded machine does not turn into an undecided verdict"""
+    results = _run_units(jobs, nproc)
+    again = [i for i, u in enumerate(results) if u.error is None and not u.cached and
+             (any(ob.get("status") == "undecided" for ob in u.obligations) or any("time budget" in x for x in u.unsupported))]
+    if again and len(again) <= 64:
+        from pyvc import smt
+
+        old = (UNIT_BUDGET[0], smt.Z3_TIMEOUT_MS, smt.CVC5_TIMEOUT_MS)
+        UNIT_BUDGET[0], smt.Z3_TIMEOUT_MS, smt.CVC5_TIMEOUT_MS = old[0] * 3, old[1] * 3, old[2] * 3
+        try:
+            redo = _run_units([jobs[i] for i in again], nproc)
+        finally:
+            UNIT_BUDGET[0], smt.Z3_TIMEOUT_MS, smt.CVC5_TIMEOUT_MS = old
+        for i, u in zip(again, redo):
+            if u.error is None:
+                results[i] = u
+    return results
+
+
+def _run_units(jobs, nproc=None):
     """jobs: list of (function, args) each returning a UnitResult.  Results are cached content-addressed: the key
     covers every source file of /repo/src and of the verifier, so a cache hit is a byte-identical re-run."""
     nproc = nproc or int(os.environ.get("PYVC_JOBS", "16"))
@@ -415,6 +440,9 @@ class Report:
             lines.append(f"UNDECIDED property={pid} {x}")
         for ob in undecided[:20]:
             lines.append(f"UNDECIDED property={pid} obligation={ob['name']} {ob.get('detail', '')[:100]}")
+        if exit_code == 0 and (spurious or unsupported or undecided):
+            # nothing refuted, but not everything decided: neither "held" nor a violation
+            exit_code = 2
 
         known_refuted = [ob for ob in refuted if any(finding_matches(f, pid, ob) for f in known["findings"])]
         n_ob = len(all_obs) + len(unsupported) - len(known_refuted)
